@@ -2,6 +2,9 @@ package main
 
 import (
 	"fmt"
+	"runtime"
+	"sync"
+	"time"
 	"os"
 	"strings"
 
@@ -31,6 +34,9 @@ func probe(p proto.Protocol, scripts map[string][]string, ops string) {
 		case "start":
 			ch := make(chan string, 1)
 			pending[f[1]] = ch
+			for len(w.newConn) > 0 {
+				<-w.newConn
+			}
 			go func() { ch <- w.connect(f[2]) }()
 			c := <-w.newConn
 			<-c.stalled
@@ -46,6 +52,44 @@ func probe(p proto.Protocol, scripts map[string][]string, ops string) {
 			}
 			w.mu.Unlock()
 			fmt.Println(op, "=>", <-pending[f[1]], w.observe())
+		case "race":
+			// force both requests past checkServer before either publishes its in-flight connection
+			var mu sync.Mutex
+			arrived := 0
+			gate := make(chan struct{})
+			w.nameHook = func(*server) {
+				pcs := make([]uintptr, 8)
+				n := runtime.Callers(2, pcs)
+				fr := runtime.CallersFrames(pcs[:n])
+				for {
+					f, more := fr.Next()
+					if strings.HasSuffix(f.Function, ".newServerConnection") {
+						mu.Lock()
+						arrived++
+						first := arrived == 1
+						if arrived == 2 {
+							close(gate)
+						}
+						mu.Unlock()
+						if first || arrived <= 2 {
+							select {
+							case <-gate:
+							case <-time.After(time.Second):
+							}
+						}
+						return
+					}
+					if !more {
+						return
+					}
+				}
+			}
+			r1, r2 := make(chan string, 1), make(chan string, 1)
+			go func() { r1 <- w.connect(f[1]) }()
+			go func() { r2 <- w.connect(f[2]) }()
+			a, b := <-r1, <-r2
+			w.nameHook = nil
+			fmt.Println(op, "=>", a, b, w.observe())
 		case "kick":
 			fmt.Println(op, "=>", w.kickInPlay(f[1]), w.observe())
 		case "drop":
@@ -57,6 +101,10 @@ func probe(p proto.Protocol, scripts map[string][]string, ops string) {
 func main() {
 	if len(os.Args) > 1 && os.Args[1] == "probe" {
 		for _, p := range []proto.Protocol{340, 767} {
+			probe(p, nil, "login race:s2:s3")
+			probe(p, nil, "login race:s2:s2")
+			probe(p, map[string][]string{"s2": {"s:a"}}, "login start:A:s2 req:s3 req:s3 release:A")
+			continue
 			probe(p, nil, "login req:s2 req:s2 req:s1 req:s3")
 			probe(p, map[string][]string{"s2": {"kl", "r", "el", "kt", "kc", "et", "enc", "a"}}, "login req:s2 req:s2 req:s2 req:s2 req:s2 req:s2 req:s2 req:s2 req:s2")
 			probe(p, map[string][]string{"s2": {"s:a"}}, "login start:A:s2 req:s3 req:s3 release:A")
